@@ -402,8 +402,8 @@ impl InstructionGenerator {
         }
     }
 
-    /// Records and arrays with literal bounds are not allocated by executing their DIM:
-    /// they exist from the start of the module or subprogram that declares them, so a
+    /// Records, fixed-length strings and arrays with literal bounds are not allocated by
+    /// executing their DIM: they exist from the start of the module or subprogram that declares them, so a
     /// DIM that control flow jumped over (GOTO, a branch not taken) still counts.
     /// Collects those DIM statements, also from the blocks nested in the given statements.
     /// `can_bypass` is set if one of them is inside a block, if there is a label (a jump
@@ -483,7 +483,8 @@ impl InstructionGenerator {
 
     fn is_static_dim_type(dim_type: &DimType) -> bool {
         match dim_type {
-            DimType::UserDefined(_) => true,
+            // a STRING * n holds its n characters from the start
+            DimType::UserDefined(_) | DimType::FixedLengthString(_, _) => true,
             DimType::Array(array_dimensions, _) => {
                 array_dimensions
                     .iter()
